@@ -128,7 +128,10 @@ Section Model.
   | OPayload (c : bool) (d : option dmap)  (* answered: complete/incomplete, Data or null *)
   | OErr (e : ekind)                       (* failed *)
   | OEmpty                                 (* returned (nil, nil) *)
-  | OCancelled (deadline : bool).          (* silent until its context was cancelled *)
+  | OCancelled (deadline : bool)           (* silent until its context was cancelled *)
+  (* failed, but handed a response over together with its error (the concurrent middleware
+     and nested merges do that): requestPart reports the error only *)
+  | OErrWith (e : ekind) (c : bool) (d : option dmap).
 
   Definition ctx_err (deadline : bool) : ekind := if deadline then EDeadline else ECancelled.
 
@@ -139,6 +142,7 @@ Section Model.
     | OErr e => MF e
     | OEmpty => MF ENull
     | OCancelled dl => MF (ctx_err dl)
+    | OErrWith e _ _ => MF e
     end.
 End Model.
 
@@ -163,4 +167,5 @@ Arguments OPayload {V}.
 Arguments OErr {V}.
 Arguments OEmpty {V}.
 Arguments OCancelled {V}.
+Arguments OErrWith {V}.
 Arguments msg_of {V}.
